@@ -1,7 +1,252 @@
-import ConfModel.Driver.Common
-namespace ConfModel.Driver.C10
-open Lean ConfModel.Driver
+/-
+C10 driver.  One line = one scenario (request names, sender goroutines, scripted client) plus the
+distinct observations the real `clientProcessRunner` produced on it.
 
-def handle : Handler := fun op _inp _impl => bad ("C10: unknown op " ++ op)
+`holds`  := the property's predicates (`Spec.reqOK`, `Spec.refusedOK`, not running, wait returned)
+            evaluated on every *implementation* observation;
+`agree`  := every implementation observation is a member of the model's outcome set for that
+            scenario, obtained by exploring **all** interleavings of `ClientRunner.step` (the
+            function the theorems are about) under the scripted client.
+-/
+import ConfModel.Driver.Common
+import ConfModel.Spec.ClientRunner
+import Std.Data.HashSet
+namespace ConfModel.Driver.C10
+open Lean ConfModel.Driver ConfModel.ClientRunner
+
+/-- scripted client actions (see harness `VerifC10Act`) -/
+inductive Act
+  | recv | resp (m : Nat) | bad | cut (m k len : Nat) | exit (code : Nat)
+
+def parseAct (j : Json) : Option Act :=
+  match str (field j "k") with
+  | "recv" => some .recv
+  | "resp" => some (.resp (nat (field j "m")))
+  | "over" => some .bad
+  | "garbage" => some .bad
+  | "cut" => some (.cut (nat (field j "m")) (nat (field j "n")) (nat (field j "len")))
+  | "exit" => some (.exit (nat (field j "code")))
+  | _ => none
+
+structure X where
+  s : State
+  client : List Act
+  /-- the reader has consumed a proper, non-empty prefix of a message -/
+  midMsg : Bool
+  /-- 0 senders running · 1 closeSend called · 2 waitForResponses returned · 3 isRunning()=false seen -/
+  mainPc : Nat
+  waitRet : String
+
+structure Scn where
+  n : Nat
+  names : Nat → ClientRunner.Name
+  threads : List (List Nat)
+
+def lateName : Nat := 1000000
+
+def spcCode : SPc → Nat
+  | .idle => 0 | .waitLock => 1 | .locked => 2 | .writing => 3 | .failed => 4
+  | .ret .ok => 5 | .ret .dup => 6 | .ret (.err .closed) => 7 | .ret (.err .fail) => 8
+
+def rpcCode : RPc → String
+  | .reading => "r" | .got m => s!"g{m}" | .firing i m => s!"f{i}.{m}" | .failErr => "e" | .failTerm => "t"
+  | .failAbort => "a" | .closing => "c" | .draining => "d" | .finishing => "n" | .done => "D"
+
+def firedKey (f : List (Nat × Option ClientRunner.Name)) : List String :=
+  sortStrings (f.map fun (i, o) => s!"{i}:{match o with | some m => toString m | none => "x"}")
+
+def actCode : Act → String
+  | .recv => "r" | .resp m => s!"p{m}" | .bad => "b" | .cut m k l => s!"c{m}.{k}.{l}" | .exit c => s!"x{c}"
+
+def X.key (sc : Scn) (x : X) : String :=
+  let s := x.s
+  let pcs := (List.range (sc.n + 1)).map (fun i => spcCode (s.spc i))
+  s!"{pcs}|{s.sendMu}|{s.closedSend}|{s.pending}|{match s.err with | none => 0 | some .closed => 1 | some .fail => 2}|{s.terminated}|{rpcCode s.rpc}|{firedKey s.fired}|{match s.proc with | .running => "R" | .exited c => s!"E{c}"}|{s.aborted}|{s.hookRan}|{x.client.length}|{x.midMsg}|{x.mainPc}|{x.waitRet}"
+
+def isRet : SPc → Bool | .ret _ => true | _ => false
+
+def nextReq (s : State) (t : List Nat) : Option Nat := t.find? (fun i => !isRet (s.spc i))
+
+def tryStep (sc : Scn) (x : X) (e : Event) : List X :=
+  match step sc.names x.s e with
+  | some s' => [{ x with s := s' }]
+  | none => []
+
+def senderMoves (sc : Scn) (x : X) (t : List Nat) : List X :=
+  match nextReq x.s t with
+  | none => []
+  | some i =>
+    match x.s.spc i with
+    | .idle => tryStep sc x (.sStart i)
+    | .waitLock => tryStep sc x (.sLock i)
+    | .locked => tryStep sc x (.sRegister i)
+    | .writing => tryStep sc x (.sWriteFail i)
+    | .failed => tryStep sc x (.sSetErr i)
+    | .ret _ => []
+
+def exited (s : State) : Bool := match s.proc with | .running => false | .exited _ => true
+
+def writing? (sc : Scn) (s : State) : Option Nat := (List.range (sc.n + 1)).find? (fun i => s.spc i == .writing)
+
+/-- moves of the scripted client -/
+def clientMoves (sc : Scn) (x : X) : List X :=
+  if exited x.s then [] else
+  let abortMove := if x.s.aborted then (tryStep sc x (.pExit 1)).map (fun y => { y with client := [] }) else []
+  let pop (y : X) : X := { y with client := x.client.tail }
+  let normal : List X :=
+    match x.client with
+    | [] => (tryStep sc x (.pExit 0))
+    | .recv :: _ =>
+      match writing? sc x.s with
+      | some i => (tryStep sc x (.sWriteOk i)).map pop
+      | none => if x.s.closedSend then [pop x] else []
+    | .resp m :: _ => (tryStep sc x (.rRecv m)).map pop
+    | .bad :: _ => (tryStep sc x .rRecvBad).map pop
+    | .cut m k len :: _ =>
+      if k == 0 then [pop x]
+      else if k < len then (if x.s.rpc == .reading then [{ pop x with midMsg := true }] else [])
+      else (tryStep sc x (.rRecv m)).map pop
+    | .exit c :: _ => (tryStep sc x (.pExit c)).map (fun y => { y with client := [] })
+  abortMove ++ normal
+
+def waitClass (s : State) : String :=
+  match s.err with
+  | some .closed => "closed"
+  | some .fail => "fail"
+  | none => match s.proc with | .exited 0 => "nil" | _ => "proc"
+
+def mainMoves (sc : Scn) (x : X) : List X :=
+  match x.mainPc with
+  | 0 =>
+    if sc.threads.all (fun t => (nextReq x.s t).isNone) then
+      (tryStep sc x .uCloseSend).map (fun y => { y with mainPc := 1 })
+    else []
+  | 1 => if x.s.rpc == .done && exited x.s then [{ x with mainPc := 2, waitRet := waitClass x.s }] else []
+  | 2 => if x.s.terminated then [{ x with mainPc := 3 }] else []
+  | _ => []
+
+def readerMoves (sc : Scn) (x : X) : List X :=
+  let internal := [Event.rLookup, .rFire, .rSetErr, .rTerminate, .rAbort, .rCloseSend, .rDrain, .rDone].flatMap (tryStep sc x)
+  let eof := if x.s.rpc == .reading && exited x.s then
+      (if x.midMsg then tryStep sc x .rRecvBad else tryStep sc x .rRecvEOF) else []
+  internal ++ eof
+
+def moves (sc : Scn) (x : X) : List X :=
+  sc.threads.flatMap (senderMoves sc x) ++ (if x.mainPc == 3 then senderMoves sc x [sc.n] else []) ++
+    readerMoves sc x ++ tryStep sc x .pHook ++ mainMoves sc x ++ clientMoves sc x
+
+def retClass : SPc → String
+  | .ret .ok => "ok" | .ret .dup => "dup" | .ret (.err .closed) => "closed" | .ret (.err .fail) => "fail"
+  | _ => "unsent"
+
+def intsKey (l : List Int) : String := ",".intercalate (l.map toString)
+
+def sortInts (l : List Int) : List Int := (l.toArray.qsort (· < ·)).toList
+
+def cbInts (s : State) (i : Nat) : List Int :=
+  sortInts ((Spec.cbsOf s i).map fun o => match o with | some m => (m : Int) | none => -1)
+
+def obsKey (rets : List String) (cbs : List (List Int)) (wait : String) (running : Bool) (late : String) (lateCbs : Nat) : String :=
+  s!"{",".intercalate rets}|{";".intercalate (cbs.map intsKey)}|{wait}|{running}|{late}|{lateCbs}"
+
+def X.obs (sc : Scn) (x : X) : String :=
+  let ids := List.range sc.n
+  obsKey (ids.map fun i => retClass (x.s.spc i)) (ids.map (cbInts x.s)) x.waitRet (isRunning x.s)
+    (retClass (x.s.spc sc.n)) (Spec.cbsOf x.s sc.n).length
+
+def X.final (sc : Scn) (x : X) : Bool := x.mainPc == 3 && isRet (x.s.spc sc.n)
+
+/-- exhaustive exploration; returns (outcome set, number of states, stuck non-final states) -/
+partial def explore (sc : Scn) (limit : Nat) (work : List X) (seen : Std.HashSet String)
+    (out : Std.HashSet String) (stuck : Nat) : Std.HashSet String × Nat × Nat :=
+  match work with
+  | [] => (out, seen.size, stuck)
+  | x :: rest =>
+    if seen.size > limit then (out, seen.size, stuck + 1000000) else
+    let ms := moves sc x
+    if x.final sc then explore sc limit rest seen (out.insert (x.obs sc)) stuck
+    else if ms.isEmpty then explore sc limit rest seen out (stuck + 1)
+    else
+      let (work', seen') := ms.foldl (fun (acc : List X × Std.HashSet String) y =>
+        let k := y.key sc
+        if acc.2.contains k then acc else (y :: acc.1, acc.2.insert k)) (rest, seen)
+      explore sc limit work' seen' out stuck
+
+def classOfRet (c : String) : Option SendRet :=
+  match c with
+  | "ok" => some .ok | "dup" => some .dup | "closed" => some (.err .closed) | "fail" => some (.err .fail)
+  | _ => none
+
+def cbOfInt (v : Int) : Option ClientRunner.Name := if v == -1 then none else if v < 0 then some 999999 else some v.toNat
+
+/-- the client wrote a complete response named m somewhere in its script -/
+def scriptAnswers (acts : List Act) (m : Nat) : Bool :=
+  acts.any fun a => match a with | .resp m' => m' == m | .cut m' k len => m' == m && k ≥ len | _ => false
+
+/-- a scenario in which nothing can go wrong: distinct names, the client reads all n requests,
+then answers each exactly once, then exits 0 -/
+def cleanScript (n : Nat) (names : List Nat) (acts : List Act) : Bool :=
+  let recvs := acts.takeWhile (fun a => match a with | .recv => true | _ => false)
+  let rest := acts.drop recvs.length
+  let resps := rest.filterMap (fun a => match a with | .resp m => some m | _ => none)
+  names.eraseDups.length == n && recvs.length == n &&
+    rest.length == n + 1 && resps.length == n && resps.eraseDups.length == n && resps.all names.contains &&
+    (match rest.getLast? with | some (.exit 0) => true | _ => false)
+
+def handle : Handler := fun op inp impl =>
+  match op with
+  | "run" =>
+    let namesL := natList (field inp "names")
+    let n := namesL.length
+    let threads := (arr (field inp "senders")).map natList
+    let actsO := (arr (field inp "client")).map parseAct
+    if actsO.any Option.isNone then bad "unknown client action" else
+    let acts := actsO.filterMap id
+    -- a cut (0 < k < len) must be followed by exit
+    let rec okCut : List Act → Bool
+      | .cut _ k len :: rest => (k == 0 || k ≥ len || (match rest with | .exit _ :: _ => true | [] => true | _ => false)) && okCut rest
+      | _ :: rest => okCut rest
+      | [] => true
+    if !okCut acts then bad "script writes after a cut" else
+    if !(isNull (field impl "panic")) then
+      { agree := false, holds := false, why := "panic: " ++ str (field impl "panic") } else
+    let sc : Scn := { n := n, names := fun i => if i < n then namesL.getD i 0 else lateName, threads := threads }
+    let x0 : X := { s := init, client := acts, midMsg := false, mainPc := 0, waitRet := "" }
+    let (outs, states, stuck) := explore sc 400000 [x0] (Std.HashSet.emptyWithCapacity 1024 |>.insert (x0.key sc)) {} 0
+    let obsL := arr (field impl "obs")
+    let clean := cleanScript n namesL acts
+    let judge (o : Json) : Bool × Bool × String :=
+      let rets := strList (field o "rets")
+      let cbs := (arr (field o "cbs")).map intList
+      let wait := str (field o "wait")
+      let running := bool (field o "running")
+      let late := str (field o "late")
+      let lateCbs := nat (field o "lateCbs")
+      let hang := str (field o "hang")
+      let key := obsKey rets (cbs.map sortInts) wait running late lateCbs
+      let perReq := (List.range n).all fun i =>
+        Spec.reqOK (sc.names i) (classOfRet (rets.getD i "")) ((cbs.getD i []).map cbOfInt)
+      let causal := (List.range n).all fun i => (cbs.getD i []).all fun v => v < 0 || scriptAnswers acts v.toNat
+      let refused := Spec.refusedOK (classOfRet late) (List.replicate lateCbs none)
+      let cleanOK := !clean || ((List.range n).all fun i => rets.getD i "" == "ok" && cbs.getD i [] == [(sc.names i : Int)]) && wait == "nil"
+      let why :=
+        if hang != "" then "deadlock: " ++ hang ++ " did not return within 10 s"
+        else if !perReq then "exactly-once/own-response violated: rets " ++ toString rets ++ " callbacks " ++ toString cbs
+        else if !causal then "a callback received a response the client never wrote"
+        else if !refused then "send after shutdown not refused: " ++ late
+        else if running then "isRunning() still true after waitForResponses returned"
+        else if !cleanOK then "well-behaved client, yet some request was not answered with its own response (or waitForResponses reported an error)"
+        else ""
+      (outs.contains key, why == "", why)
+    let js := obsL.map judge
+    let agree := stuck == 0 && !obsL.isEmpty && js.all (·.1)
+    let holds := js.all (·.2.1)
+    let why := (js.filter (fun j => !j.2.1)).head?.map (·.2.2) |>.getD
+      (if stuck != 0 then s!"model: {stuck} stuck states" else if agree then "" else
+        "observation outside the model's outcome set: " ++ toString ((obsL.zip js).filter (fun p => !p.2.1) |>.map (fun p => p.1.compress)))
+    { agree := agree, holds := holds, nontrivial := outs.size > 1 || !clean,
+      model := Json.mkObj [("outcomes", toJson (sortStrings outs.toList)), ("states", toJson states)],
+      why := why, cls := if clean then "clean" else if outs.size > 1 then "racy" else "faulty" }
+  | _ => bad ("C10: unknown op " ++ op)
 
 end ConfModel.Driver.C10
